@@ -53,6 +53,10 @@ def features(case):
         f.append("relation")
     if case.get("penalties"):
         f.append("penalty")
+    for d in case["datasets"]:
+        rep = d.get("repr")
+        if rep:
+            f += [x for x in (f"data_{rep['dtype']}", f"layout_{rep['layout']}", "integer_axis" if rep.get("axis_int") and all(float(g).is_integer() for g in d["global_axis"]) else None) if x and x not in f]
     if case.get("global_axis_order"):
         f.append("global_axis_" + case["global_axis_order"])
     if any(d.get("global_megacomplex") for d in case["datasets"]):
